@@ -162,6 +162,7 @@ pub fn random_history(t: &mut Tracer, rng: &mut StdRng, note: &str) -> String {
     };
     let mut earr = 0usize;
     let mut steps = 0;
+    let mut new_flow_done = false;
     while sim.alive() && steps < 60 {
         steps += 1;
         sim.v = rng.gen_range(0..1000);
@@ -251,9 +252,13 @@ pub fn random_history(t: &mut Tracer, rng: &mut StdRng, note: &str) -> String {
                     _ => sim.op_proceed(t),
                 }
             }
-            "Redirect" => match rng.gen_range(0..4) {
+            "Redirect" => match rng.gen_range(0..5) {
                 0 => sim.op_verdict(t),
                 1 => sim.op_status(t),
+                2 if !new_flow_done => {
+                    new_flow_done = true;
+                    sim.op_new_flow(t, rng.gen_bool(0.5));
+                }
                 _ => sim.op_proceed(t),
             },
             "Cleanup" => {
@@ -344,7 +349,7 @@ pub fn run_to_cleanup(t: &mut Tracer, rq: RqCfg, early: Option<EarlyMsg>, give_u
 pub fn c10(o: &Opts, t: &mut Tracer) -> Value {
     let mut n = 0u64;
     let methods = ["GET", "HEAD", "POST", "PUT", "CONNECT"];
-    let handshakes = ["none", "100", "timeout", "late100", "refuseBare", "refuseFields", "refuseFieldsClose"];
+    let handshakes = ["none", "100", "timeout", "late100", "refuseBare", "refuseFields", "refuseFieldsClose", "stray100"];
     let statuses = [200u16, 204, 302, 304, 403];
     let framings = [("absent", "absent"), ("zero", "absent"), ("n", "absent"), ("absent", "chunked"), ("n", "chunked")];
     let conns = ["absent", "close", "keepalive", "two"];
@@ -356,7 +361,7 @@ pub fn c10(o: &Opts, t: &mut Tracer) -> Value {
                 }
                 let body_m = matches!(*m, "POST" | "PUT");
                 for (hi, hs) in handshakes.iter().enumerate() {
-                    if *hs != "none" && !body_m {
+                    if *hs != "none" && *hs != "stray100" && !body_m {
                         continue;
                     }
                     for resp10 in [false, true] {
@@ -368,12 +373,13 @@ pub fn c10(o: &Opts, t: &mut Tracer) -> Value {
                                         continue;
                                     }
                                     let rq = RqCfg {
-                                        method: m.to_string(), ver10, expect: *hs != "none", connclose: *rconn == "close" || *rconn == "two",
+                                        method: m.to_string(), ver10, expect: *hs != "none" && *hs != "stray100", connclose: *rconn == "close" || *rconn == "two",
                                         despite: false, framing: if body_m { ["default", "cl2", "chunked"][(n % 3) as usize].into() } else { "default".into() },
                                         conn_other: if *rconn == "keepalive" || *rconn == "two" { Some("keep-alive") } else { None },
                                     };
                                     let early = match *hs {
-                                        "100" | "late100" => Some(EarlyMsg::new("100", n as usize)),
+                                        // "stray100": an interim 100 nobody asked for is handed to the caller before the final response
+                                        "100" | "late100" | "stray100" => Some(EarlyMsg::new("100", n as usize)),
                                         "refuseBare" | "refuseFields" | "refuseFieldsClose" => Some(EarlyMsg::new(hs, n as usize)),
                                         _ => None,
                                     };
@@ -383,6 +389,8 @@ pub fn c10(o: &Opts, t: &mut Tracer) -> Value {
                                     if hs.starts_with("refuse") {
                                         t.class("c10:refusal");
                                     }
+                                    // now and then the response starts with legal header fields of little content
+                                    EXTRA_HEAD_LINES.with(|x| *x.borrow_mut() = ["", "", "X-Powered-By:\r\n", "Set-Cookie: \r\nServer:\r\n"][(n % 4) as usize].to_string());
                                     run_to_cleanup(t, rq, early, *hs == "late100" || *hs == "timeout", &fin, n as usize, "c10");
                                 }
                             }
@@ -392,6 +400,7 @@ pub fn c10(o: &Opts, t: &mut Tracer) -> Value {
             }
         }
     }
+    EXTRA_HEAD_LINES.with(|x| x.borrow_mut().clear());
     // a 3xx head cut after a complete Location line (known finding KF1 makes the code answer early): whatever else
     // the head says (Connection: keep-alive ...), the connection has lost its message boundary and must close
     let mut ntrunc = 0;
